@@ -248,6 +248,44 @@ def run(vc):
                         note=f"{c} defined by the type reaches the element table with the type's value")
         vc.explore(f"create from type[{element}]", h_create, max_paths=200)
 
+    # ---- batch create from type (the property does not distinguish how the element is created) ------------------------
+    # create_transformers is left out: it is known not to apply shift / tap data of the type (known finding of C24, pinned by a test)
+    from pyvc.arrays import Space, Arr
+    from contracts import C24
+    sp = Space.get("batch")
+    batch_creators = {"line": ("pandapower.create.line_create:create_lines", 2, True),
+                      "trafo3w": ("pandapower.create.trafo_create:create_transformers3w", 3, False)}
+    for element, (fn, nbus, with_length) in batch_creators.items():
+        def h_bcreate(p, element=element, fn=fn, nbus=nbus, with_length=with_length):
+            data, pres = sym_type(element, "T")
+            tab = sym_table(element)
+            net = netmodel.Net({"std_types": PDict({element: PDict({"new": data})}), element: tab, "bus": pm.table("bus", {"vn_kv": R})},
+                               strict=True)
+            wellformed(p, element, pres)
+            cap = C24._summaries(p.it, sp)
+            args = [Arr(sp, SV(z3.Function(f"arg.bus{k}", I, I)(sp.i))) for k in range(nbus)]
+            if with_length:
+                args.append(Arr(sp, SV(z3.Function("arg.length_km", I, R)(sp.i))))
+            out = p.call(fn, net, *args, "new")
+            if out.raised:
+                if C24.C25_input_error(out.exc):
+                    return
+                p.prove(f"create-batch[{element}]:no-exception", False, note=f"{fn} raised {out.exc!r}")
+                return
+            if len(cap["batch"]) != 1:
+                raise EngineError(f"{fn}: {len(cap['batch'])} entry dicts")
+            entries = cap["batch"][0]
+            for c in TYPES[element]["required"] + TYPES[element]["optional"]:
+                if c not in tab.cols or c in ("q_mm2", "alpha"):
+                    continue
+                pr = entries.presence(c)
+                prz = z3.BoolVal(pr) if isinstance(pr, bool) else pr
+                val = C24._elem(entries.raw(c)) if pr is not False else None
+                p.prove(f"create-batch[{element}]:{c}", z3.Implies(_has(pres[c]), z3.And(prz, _eqz(val, data.raw(c)))),
+                        meta=dict(part="create-batch", element=element),
+                        note=f"{c} defined by the type reaches every row of the batch with the type's value")
+        vc.explore(f"batch create from type[{element}]", h_bcreate, max_paths=400)
+
 
 def capture_entries(it):
     cap = []
